@@ -4,7 +4,7 @@ use crate::parse::expr_or_stmt::parse_expr_or_stmt;
 use crate::parse::iterator::LexIterator;
 use crate::parse::lex::token::Token;
 use crate::parse::operation::parse_expression;
-use crate::parse::result::expected_one_of;
+use crate::parse::result::{custom, expected_one_of};
 use crate::parse::result::ParseResult;
 use crate::parse::ty::parse_type;
 
@@ -56,10 +56,39 @@ fn parse_match(it: &mut LexIterator) -> ParseResult {
     let cond = it.parse(&parse_expression, "match", start)?;
     it.eat(&Token::NL, "match")?;
     let cases = it.parse_vec(&parse_match_cases, "match", start)?;
+    for case in &cases {
+        if let Node::Case { cond, .. } = &case.node {
+            let pattern = match &cond.node {
+                Node::ExpressionType { expr, .. } => expr,
+                _ => cond,
+            };
+            if !is_pattern(pattern) {
+                let msg = "A match arm starts with a literal, an identifier, _ or a tuple of these";
+                return Err(Box::from(custom(msg, pattern.pos)));
+            }
+        }
+    }
     let end = cases.last().cloned().map_or(cond.pos, |case| case.pos);
 
     let node = Node::Match { cond, cases };
     Ok(Box::from(AST::new(start.union(end), node)))
+}
+
+/// What may stand before the arrow of a match arm.
+fn is_pattern(ast: &AST) -> bool {
+    match &ast.node {
+        Node::Int { .. }
+        | Node::Real { .. }
+        | Node::ENum { .. }
+        | Node::Id { .. }
+        | Node::Underscore => true,
+        Node::Str { expressions, .. } => expressions.is_empty(),
+        Node::SubU { expr } | Node::AddU { expr } => {
+            matches!(expr.node, Node::Int { .. } | Node::Real { .. })
+        }
+        Node::Tuple { elements } => elements.iter().all(is_pattern),
+        _ => false,
+    }
 }
 
 pub fn parse_match_cases(it: &mut LexIterator) -> ParseResult<Vec<AST>> {
